@@ -75,6 +75,8 @@ struct RootCase {
     fee: Fee3,
     h: VH,
     snap: Snapshot,
+    /// size of the first deposit
+    first: u128,
 }
 
 fn build_root(cw20: bool, fee: Fee3) -> RootCase {
@@ -96,7 +98,7 @@ fn build_root_sized(cw20: bool, fee: Fee3, first: u128) -> RootCase {
     // (tolerated if it fails: the scripts that withdraw shares then simply revert; a vault that refuses deposits after a
     // completed loan is caught by loan.counter_back_to_zero on the first case)
     let _ = w.exec(MALLORY, &h.adversary, &AdvMsg::Forward { msgs }, &[]);
-    RootCase { cw20, fee, h, snap: w.snapshot() }
+    RootCase { cw20, fee, h, snap: w.snapshot(), first }
 }
 
 pub struct Case {
@@ -107,7 +109,7 @@ pub struct Case {
 
 fn case_json(roots: &[RootCase], c: &Case) -> Value {
     json!({"cw20": roots[c.root].cw20, "fee": {"protocol": roots[c.root].fee.protocol.to_string(), "flash": roots[c.root].fee.swap.to_string(), "burn": roots[c.root].fee.burn.to_string()},
-           "root": c.root, "amount": c.amount.to_string(), "script": c.script, "path": "direct"})
+           "root": c.root, "first": roots[c.root].first.to_string(), "amount": c.amount.to_string(), "script": c.script, "path": "direct"})
 }
 
 fn run_case(w: &mut World, rc: &RootCase, amount: u128, script: &[Step], cx: &mut Cx) {
@@ -340,6 +342,16 @@ pub fn run(tier: &str, seed: u64) -> i32 {
                 cases.push(Case { root: roots.len() - 1, amount: a, script: s.clone() });
             }
         }
+        // vaults on the scale of an 18-decimals asset (a million whole tokens = 1e24 base units), native and cw20: loans whose
+        // individual fees exceed 2^64 base units
+        for cw20 in [false, true] {
+            roots.push(build_root_sized(cw20, FINE_FEES, 10u128.pow(24)));
+            for a in [4 * 10u128.pow(23) + 7, 10u128.pow(24)] {
+                for s in &short {
+                    cases.push(Case { root: roots.len() - 1, amount: a, script: s.clone() });
+                }
+            }
+        }
     }
     let res = par_index_with(cases.len(), 3, World::new, |i, cx, w| {
         let c = &cases[i];
@@ -418,7 +430,10 @@ pub fn replay(doc: &Value) -> bool {
         let g = |k: &str| p["fee"][k].as_str().unwrap().parse::<u128>().unwrap();
         let fee = Fee3::new(g("protocol"), g("flash"), g("burn"));
         // (the fine-grained fee triple only occurs on the large vault)
-        let rc = if fee.protocol == FINE_FEES.protocol && fee.swap == FINE_FEES.swap { build_root_sized(cw20, fee, 10_000_000_000_000) } else { build_root(cw20, fee) };
+        let rc = match p["first"].as_str().and_then(|x| x.parse::<u128>().ok()) {
+            Some(first) => build_root_sized(cw20, fee, first),
+            None => if fee.protocol == FINE_FEES.protocol && fee.swap == FINE_FEES.swap { build_root_sized(cw20, fee, 10_000_000_000_000) } else { build_root(cw20, fee) },
+        };
         let amount: u128 = p["amount"].as_str().unwrap().parse().unwrap();
         let script: Vec<Step> = serde_json::from_value(p["script"].clone()).unwrap();
         println!("direct loan {} script {:?} fee {:?} cw20 {}", amount, script, fee, cw20);
